@@ -60,11 +60,22 @@ def showOut (cfg : NetCfg) (o : Out) : String :=
   (if o.statuses.isEmpty then "-" else ";".intercalate (o.statuses.map (showStatus cfg)))
 
 /-- walk the events with the model state, producing per-event clauses for the property -/
-def clauses (prop : String) (cfg : NetCfg) : St → List Ev → List ImplOut → List (String × Bool)
+def clauses (prop : String) (cfg : NetCfg) (seen : List Nat := []) : St → List Ev → List ImplOut → List (String × Bool)
   | _, [], _ => []
   | _, _, [] => []
   | s, e :: es, o :: os =>
     let r := step cfg s e
+    -- source addresses of every frame received so far (this event included)
+    let seen' := match e with | .frame f => source f.id :: seen | _ => seen
+    -- C11: a unit is reported Healthy only if some frame came from ITS OWN address (the simulator is exempt: finding)
+    let healthyClause : List (String × Bool) :=
+      if prop == "C11" then
+        match e with
+        | .cycle =>
+          [("healthy_only_if_heard_from_own_address", ((units cfg).zipIdx.all fun (u, i) =>
+              u.kind == .sim || !(o.statuses.contains (showStatus cfg { unit := i, kind := .healthy })) || seen'.contains u.da))]
+        | _ => []
+      else []
     let here : List (String × Bool) :=
       [("no_panic", !o.panicked)] ++
       (match e with
@@ -127,7 +138,7 @@ def clauses (prop : String) (cfg : NetCfg) : St → List Ev → List ImplOut →
           else []
         | _, _, _ => []
       else []
-    here ++ pairClause ++ clauses prop cfg r.1 es os
+    here ++ healthyClause ++ pairClause ++ clauses prop cfg seen' r.1 es os
 
 def check (prop : String) (inp out : List String) : Verdict :=
   match inp with
@@ -140,7 +151,7 @@ def check (prop : String) (inp out : List String) : Verdict :=
         !b.panicked && a.frames == b.frames && a.signals.map DrvDrv.showSig == b.signals &&
         a.statuses.map (showStatus cfg) == b.statuses
       { agree := agree, model := joinSp (m.map (showOut cfg)),
-        specFail := (failing (clauses prop cfg (init cfg) es outs)).eraseDups }
+        specFail := (failing (clauses prop cfg [] (init cfg) es outs)).eraseDups }
     | _, _, _ => .bad "auth tokens"
   | ["new", cfgTok] =>
     -- construction of the authority (and of its clones) from a configuration
